@@ -1,4 +1,67 @@
 import Cutplace.Model.Checks
+/-
+C08  Validation outcomes do not depend on what the CID was used for before.
+-/
 namespace Cutplace.Props
-theorem C08_placeholder : True := trivial
+open Cutplace
+
+variable {σ : Type}
+
+/-- A started read behaves identically whatever state the checks were left in (reachable or not):
+its first step resets every check. -/
+theorem C08_reader_fresh (cfg : ReaderCfg) (cols : List Column) (checks : List (Check σ)) (fault : Bool)
+    (rows : List Row) (s1 s2 : List σ) :
+    (readRows cfg cols checks fault rows s1).events = (readRows cfg cols checks fault rows s2).events ∧
+    (readRows cfg cols checks fault rows s1).final = (readRows cfg cols checks fault rows s2).final ∧
+    (readRows cfg cols checks fault rows s1).st.sts = (readRows cfg cols checks fault rows s2).st.sts ∧
+    (readRows cfg cols checks fault rows s1).log = (readRows cfg cols checks fault rows s2).log :=
+  ⟨rfl, rfl, rfl, rfl⟩
+
+/-- The same for a writer (after the repair that resets the checks in `Writer.__init__`). -/
+theorem C08_writer_fresh (checks : List (Check σ)) (s1 s2 : List σ) :
+    (writerInit checks s1).1.sts = (writerInit checks s2).1.sts ∧ (writerInit checks s1).2 = (writerInit checks s2).2 :=
+  ⟨rfl, rfl⟩
+
+/-- one run's outcome and the state it leaves do not depend on the state it starts from -/
+theorem C08_run_fresh (cols : List Column) (checks : List (Check σ)) (pad : Row → Row) (s1 s2 : List σ)
+    (r : Run) (h : r.isValidate0 = false) :
+    runOne cols checks pad s1 r = runOne cols checks pad s2 r := by
+  cases r with
+  | read cfg fault rows close => rfl
+  | write header rows close => rfl
+  | validate0 => simp [Run.isValidate0] at h
+
+/-- For any history of reads and writes on one CID — runs that ended in an error, were abandoned
+(a read of the consumed prefix) or were never closed included — every run's outcome equals the
+outcome of the same run on a freshly loaded CID, whatever state the history started from.
+Partial: histories containing `validate(…, validate_until=0)` are excluded, see the counterexample. -/
+theorem C08_history_partial (cols : List Column) (checks : List (Check σ)) (pad : Row → Row)
+    (sts : List σ) (runs : List Run) (h : ∀ r ∈ runs, r.isValidate0 = false) :
+    runHistory cols checks pad sts runs =
+      runs.map (fun r => (runOne cols checks pad (checks.map (·.reset)) r).1) := by
+  induction runs generalizing sts with
+  | nil => rfl
+  | cons r rs ih =>
+    simp only [runHistory, List.map_cons]
+    rw [C08_run_fresh cols checks pad sts (checks.map (·.reset)) r (h r (by simp))]
+    congr 1
+    exact ih _ (fun r' hr' => h r' (by simp [hr']))
+
+/-- The full statement fails for `validate(cid, data, validate_until=0)`: its end-of-data verdict is
+computed on the state left by the previous run (known finding C08:validate-until-0:stale-end-check). -/
+theorem C08_validate0_counterexample :
+    ∃ (checks : List (Check CState)) (s1 s2 : List CState),
+      (runOne [] checks id s1 .validate0).1 ≠ (runOne [] checks id s2 .validate0).1 :=
+  ⟨[distinctCountCheck 0 .lt 2], [.distinct []], [.distinct [['a'], ['b'], ['c']]], by decide⟩
+
+/-- non-vacuity: a history of an unclosed read with duplicates, a write and a clean read -/
+example :
+    let col : Column := ⟨fun v => .inr v, fun _ => true⟩
+    let rows : List Row := [[['1']], [['1']]]
+    runHistory [col] [isUniqueCheck [0]] id [.unique [([['1']], 7)]]
+        [.read ⟨.yield, 0, none⟩ false rows false, .write 0 rows true, .read ⟨.continue, 0, none⟩ false [[['1']]] true]
+      = [{ events := [.row [['1']], .err 1 (.check 0 (some 0))], accepted := 1, rejected := 1 },
+         { writes := [none, some (.check 0 (some 0))], out := [[['1']]] },
+         { events := [.row [['1']]], accepted := 1 }] := by decide
+
 end Cutplace.Props
